@@ -106,7 +106,9 @@ type vioBox struct{ v [8]*drv.Violation }
 // handle's working-tree pointer, which only the writer's thread may touch.
 var c06ReadOps = []string{"get", "has", "getwithindex", "getbyindex", "iter-asc", "iter-desc", "iterrange", "proof", "export", "export-pinned"}
 
-func genC06(seed uint64, run int, tier string) *drv.Plan {
+func genC06(seed uint64, run int, tier string) *drv.Plan { return genC06b(seed, run, tier, nil) }
+
+func genC06b(seed uint64, run int, tier string, tweak func(b *drv.Bias)) *drv.Plan {
 	r := sim.Sub(seed, "C06", run)
 	b := drv.DefaultBias()
 	b.NoEmptyValues = true
@@ -121,6 +123,9 @@ func genC06(seed uint64, run int, tier string) *drv.Plan {
 	if tier == "thorough" {
 		b.MaxVersions = 9
 		b.MediumMax = 24
+	}
+	if tweak != nil {
+		tweak(&b)
 	}
 	mode := "sync"
 	if r.Chance(2, 5) {
@@ -137,6 +142,12 @@ func genC06(seed uint64, run int, tier string) *drv.Plan {
 	p.Config = g.Config()
 	p.Config.Cache = r.Pick(0, 0, 2, 1000)
 	p.Config.AsyncPrune = mode != "sync"
+	if p.Config.AsyncPrune {
+		// how fast the clock runs against the tasks' progress decides where the
+		// pruner's 100 ms poll falls: only when everybody else is idle (0), or
+		// somewhere inside the writer's next operations
+		p.Config.QuantumUs = r.Pick(0, 0, 200, 1000, 5000, 20000)
+	}
 	steps := g.History()
 	// the writer must end on a commit
 	for len(steps) > 0 {
@@ -176,7 +187,27 @@ type c06Version struct {
 	export []ref.ExportNode
 }
 
-func execC06(p *drv.Plan) *Out {
+// c06Span is the stretch of the physical write log during which one writer
+// operation ran (lo = log length when it was called, hi = when it returned).
+type c06Span struct {
+	lo, hi int
+	n      int64 // save: the version; prune: the target
+	sync   bool
+}
+
+// c06Log is what a run leaves behind for C05's mode "async" (stops at write
+// boundaries of a commit interleaved with background pruning).
+type c06Log struct {
+	saves, prunes []c06Span
+	M             *ref.VMap
+	T             *ref.Tree
+	sim           *sim.SimDB
+	universe      map[string]bool
+}
+
+func execC06(p *drv.Plan) *Out { return execC06x(p, nil) }
+
+func execC06x(p *drv.Plan, lg *c06Log) *Out {
 	out := &Out{Evals: 1, Probes: map[string]int{}, Stats: map[string]int{}, Faults: map[string]int{}}
 	out.Sample = p.Compact()
 	var wsteps []drv.Step
@@ -241,6 +272,7 @@ func execC06(p *drv.Plan) *Out {
 	seedR := drv.SubRand(p, "c06-sched")
 	den := seedR.Pick(2, 3, 5, 8, 16, 40)
 	sched := sim.NewSched(seedR, 1, den, p.Schedule, p.UseSchedule)
+	sched.Quantum = time.Duration(p.Config.QuantumUs) * time.Microsecond
 	sched.Probe = func() bool { return tree != nil && iavl.VerifLocksFree(tree) }
 	iavl.VerifHooks.Yield = sched.Yield
 	iavl.VerifHooks.Spawn = func(o any) { sched.Spawn(o) }
@@ -269,6 +301,16 @@ func execC06(p *drv.Plan) *Out {
 	}
 	tree = w.Tree
 	w.Sim.Hook = func(kind string) { sched.Yield("simdb." + kind) }
+	if lg != nil {
+		lg.M, lg.T, lg.sim, lg.universe = M, T, w.Sim, universe
+	}
+	// the physical write log is only consulted for C05's mode "async"
+	logLen := func() int {
+		if lg == nil {
+			return 0
+		}
+		return w.Sim.LogLen()
+	}
 
 	sh := &c06Shared{floor: 1, readers: int32(maxR + 1)}
 	box := &vioBox{}
@@ -351,7 +393,11 @@ func execC06(p *drv.Plan) *Out {
 			// the background pruner had a chance to look: from the moment
 			// Export() returned the version is pinned and must stay complete
 			sched.Atomic(func() {
+				plo := logLen()
 				lateErr = tree.DeleteVersionsTo(n)
+				if lg != nil && lateErr == nil {
+					lg.prunes = append(lg.prunes, c06Span{lo: plo, hi: logLen(), n: n, sync: !async})
+				}
 				if it, e := tree.GetImmutable(n); e == nil {
 					late, _ = it.Export()
 				}
@@ -368,7 +414,11 @@ func execC06(p *drv.Plan) *Out {
 		}
 		err := lateErr
 		if late == nil && lateErr == nil {
+			plo := logLen()
 			err = tree.DeleteVersionsTo(n)
+			if lg != nil && err == nil {
+				lg.prunes = append(lg.prunes, c06Span{lo: plo, hi: logLen(), n: n, sync: !async})
+			}
 		}
 		switch {
 		case pinned && !async && err == nil:
@@ -432,7 +482,11 @@ func execC06(p *drv.Plan) *Out {
 						}
 					}
 					sh.add(&sh.commitSeq, 1)
+					slo := logLen()
 					h, v, err := tree.SaveVersion()
+					if lg != nil && err == nil {
+						lg.saves = append(lg.saves, c06Span{lo: slo, hi: logLen(), n: v})
+					}
 					sh.add(&sh.commitSeq, 1)
 					if bracket {
 						tree.UnsetCommitting()
